@@ -138,6 +138,11 @@ func GenPlain(r *hx.Rng, name string) *Package {
 		}
 		it.Actions = append(it.Actions, a)
 	}
+	// object references (the shapes /repo's own IDL uses: an object of another interface of the
+	// package as method result, method parameter, signal payload)
+	if ni >= 2 && r.Chance(0.35) {
+		addObjActions(r, g, p.Ifaces[r.Intn(ni)], p.Ifaces[r.Intn(ni)], 1+r.Intn(3))
+	}
 	// small packages get their share: every fifth package is cut down to one or two actions
 	if r.Chance(0.2) {
 		p.Ifaces = p.Ifaces[:1]
@@ -148,6 +153,28 @@ func GenPlain(r *hx.Rng, name string) *Package {
 	}
 	p.Number()
 	return p
+}
+
+// addObjActions appends to interface from up to n actions that carry an object of interface to.
+func addObjActions(r *hx.Rng, g *gen, from, to *Iface, n int) {
+	kinds := []int{0, 1, 2}
+	for i := 0; i < n && i < len(kinds); i++ {
+		name := fmt.Sprintf("%s%d", []string{"make", "take", "sent"}[kinds[i]], r.Intn(90))
+		switch kinds[i] {
+		case 0:
+			from.Actions = append(from.Actions, &Action{Kind: "fn", Name: name, Params: g.params(r.Intn(2), false), Ret: ObjOf(to)})
+		case 1:
+			ps := g.params(r.Intn(3), false)
+			ps = append(ps, Param{"ob", ObjOf(to)})
+			a := &Action{Kind: "fn", Name: name, Params: ps}
+			if r.Bool() {
+				a.Ret = g.scalar()
+			}
+			from.Actions = append(from.Actions, a)
+		default:
+			from.Actions = append(from.Actions, &Action{Kind: "sig", Name: name, Params: []Param{{"ob", ObjOf(to)}}})
+		}
+	}
 }
 
 // NonTrivial: a struct used by two actions, or a nested container somewhere.
